@@ -4,6 +4,18 @@
     c15 hash <pw> <salt-hex> <spin>           -> base64 text of convert_password_to_hash
     c15 set <kind> <pw> <pre>                 -> salt-independent observation of the setter
     c15 stored <kind> <pw> <pre> <saltb64>    -> mem=… xml=… reload=…  (setter → write_to → set_attributes)
+    c15 stored <kind> <pw> <pre> <saltb64> <part>
+        -> mem=… xml=… reload=… part=read:…;tree:…;chars:…;flags:…
+        `<part>` = the characters of the REAL saved part (xl/worksheets/sheet1.xml | xl/workbook.xml).  The composition of
+        `C15_roundtrip_xml_sheet / _workbook` is re-run on them: `Spec.Xml.parse` (the XML 1.0 reader of Spec/XmlLex), `root.kid?
+        "sheetProtection" | "workbookProtection"`, `AnnotProt.SheetProtection.read | WorkbookProtection.read` (= set_attributes).
+        read  = the hash fields of kind read from the part (for the workbook element `!` is appended when the WHOLE record read differs
+                from the model's record); the harness expects the fields the model's setter produced (= the real getters)
+        tree  = same iff the element found is `.elem name (render x.fields) []` for x = the model's record after the setter on the same
+                salt (flags, which are outside the C15 model, taken from the element read)
+        chars = found iff `renderNode (.empty name (render x.fields))` (the writer call of the theorem, with attribute escaping) occurs
+                in the real characters of the part
+        flags = the non-hash attributes of the rendered element (what the harness switched on in the pre-state)
 
   kind ∈ sheet | workbook | revisions; pre ∈ 0 (fresh) | 1 (legacy raw hash present) | 2 (old hashed
   values + legacy raw hash present).  Strings travel as hex of UTF-8 (`-` = empty).
@@ -11,6 +23,8 @@
 import Umya.Model.PwHash
 import Umya.Model.PrimsExec
 import Umya.Driver.Proto
+import Umya.Model.AnnotProt
+import Umya.Model.XmlWrite
 namespace Umya.Driver.C15
 open Umya.Crypto Umya.PwHash Umya.Proto
 
@@ -71,6 +85,72 @@ def showFields (f : PwFields) : String :=
 def showAttrs (n : Names) (attrs : List Attr) : String :=
   ";".intercalate ((attrs.filter (fun a => isName n a.1)).map fun a => String.ofList a.1 ++ "=" ++ String.ofList a.2)
 
+/-! ### the composition of `Thm/C15Xml.lean` on the characters of a saved part -/
+
+def hasInfix (p : List Char) : List Char → Bool
+  | [] => p.isEmpty
+  | c :: t => p.isPrefixOf (c :: t) || hasInfix p t
+
+/-- `Thm.C15.sheetRec`: the C06 record holding the model's hash state -/
+def sheetRec (s : SheetProtection) (flags : Umya.AnnotProt.Flag → Option Bool) : Umya.AnnotProt.SheetProtection :=
+  { algorithmName := s.pw.algorithmName, hashValue := s.pw.hashValue, saltValue := s.pw.saltValue,
+    spinCount := s.pw.spinCount, password := s.pw.password, flags := flags }
+
+/-- `Thm.C15.wbRec` -/
+def wbRec (w : WorkbookProtection) (lr ls lw : Option Bool) : Umya.AnnotProt.WorkbookProtection :=
+  { workbookAlgorithmName := w.workbook.algorithmName, workbookHashValue := w.workbook.hashValue,
+    workbookSaltValue := w.workbook.saltValue, workbookSpinCount := w.workbook.spinCount,
+    workbookPassword := w.workbook.password,
+    revisionsAlgorithmName := w.revisions.algorithmName, revisionsHashValue := w.revisions.hashValue,
+    revisionsSaltValue := w.revisions.saltValue, revisionsSpinCount := w.revisions.spinCount,
+    revisionsPassword := w.revisions.password,
+    lockRevision := lr, lockStructure := ls, lockWindows := lw }
+
+def isHashName (a : List Char) : Bool :=
+  isName sheetNames a || isName workbookNames a || isName revisionsNames a
+
+/-- element found vs. the model's element: tree, characters, flags -/
+def elemReport (name : String) (e : Umya.Spec.Xml.Node) (attrs : List Umya.Spec.Xml.Attr) (part : List Char) : String :=
+  let tree := match e with
+    | .elem n as [] => n == name.toList && as == attrs
+    | _ => false
+  let chars := hasInfix (Umya.XmlWrite.renderNode (.empty name.toList attrs)) part
+  let flags := ",".intercalate ((attrs.filter (fun a => !isHashName a.name)).map fun a =>
+    String.ofList a.name ++ "=" ++ String.ofList a.value)
+  s!"tree:{if tree then "same" else "diff"};chars:{if chars then "found" else "absent"};flags:{flags}"
+
+def partCheck (k : Kind) (pw : List Char) (salt : Bytes) (pre : Nat) (part : List Char) : String :=
+  match Umya.Spec.Xml.parse part with
+  | none => "noparse"
+  | some root =>
+    match k with
+    | .sheet =>
+      match root.kid? "sheetProtection" with
+      | none => "nokid"
+      | some e =>
+        match Umya.AnnotProt.SheetProtection.read e with
+        | none => "read-panic"
+        | some x =>
+          let m := sheetRec (setSheetPassword P pw salt ⟨preFields pre⟩) x.flags
+          let got : PwFields := ⟨x.algorithmName, x.hashValue, x.saltValue, x.spinCount, x.password⟩
+          s!"read:{showFields got};{elemReport "sheetProtection" e (Umya.AnnotCodec.render m.fields) part}"
+    | _ =>
+      match root.kid? "workbookProtection" with
+      | none => "nokid"
+      | some e =>
+        match Umya.AnnotProt.WorkbookProtection.read e with
+        | none => "read-panic"
+        | some x =>
+          let w := match k with
+            | .revisions => setRevisionsPassword P pw salt ⟨PwFields.empty, preFields pre⟩
+            | _ => setWorkbookPassword P pw salt ⟨preFields pre, PwFields.empty⟩
+          let m := wbRec w x.lockRevision x.lockStructure x.lockWindows
+          let got : PwFields := match k with
+            | .revisions => ⟨x.revisionsAlgorithmName, x.revisionsHashValue, x.revisionsSaltValue, x.revisionsSpinCount, x.revisionsPassword⟩
+            | _ => ⟨x.workbookAlgorithmName, x.workbookHashValue, x.workbookSaltValue, x.workbookSpinCount, x.workbookPassword⟩
+          let whole := if x = m then "" else "!"
+          s!"read:{showFields got}{whole};{elemReport "workbookProtection" e (Umya.AnnotCodec.render m.fields) part}"
+
 def handle (args : List String) : String :=
   match args with
   | ["hash", pw, salt, spin] =>
@@ -99,6 +179,18 @@ def handle (args : List String) : String :=
         s!"mem={showFields f} xml={showAttrs (namesOf k) attrs} reload={rl}"
       | none => "bad-op"
     | _, _, _, _ => "bad-op"
+  | ["stored", kind, pw, pre, salt64, part] =>
+    match parseKind kind, decodeStr pw, pre.toNat?, decodeStr salt64, decodeStr part with
+    | some k, some pw, some pre, some s64, some part =>
+      match P.unb64 s64 with
+      | some salt =>
+        let (f, attrs) := runSet k pw salt pre
+        let rl := match readBack k attrs with
+          | some g => showFields g
+          | none => "panic"
+        s!"mem={showFields f} xml={showAttrs (namesOf k) attrs} reload={rl} part={partCheck k pw salt pre part}"
+      | none => "bad-op"
+    | _, _, _, _, _ => "bad-op"
   | _ => "bad-op"
 
 end Umya.Driver.C15
